@@ -19,7 +19,7 @@ impl Prop for C07 {
         "C07"
     }
     fn rule(&self) -> &'static str {
-        "allocation-heavy and recursion-heavy program families (tail / non-tail; direct, mutual, through closures, over-application, if/match/&&/|| tail positions, record-of-functions) x a sweep of memory limits (baseline + 0..1 MiB in header-sized steps) and stack limits (3..10^4 slots); deep recursion and deep data with default limits; tail families measured at n = 10, 10^3, 10^5; interrupts issued from another OS thread after a random number of observed call steps; non-trivial = the limit was actually reached (error outcome) or the peak counters moved; distinct = (family, parameter, limit)"
+        "allocation-heavy and recursion-heavy program families (tail / non-tail; direct, mutual, through closures, over-application, if/match/&&/|| tail positions, record-of-functions) x a sweep of memory limits (baseline + 0..1 MiB in header-sized steps) and stack limits (3..10^4 slots); deep recursion and deep data with default limits; tail families measured at n = 10, 10^3, 10^5; interrupts issued from another OS thread after a random number of observed call steps, a third of them while the program runs inside `io.catch` with a handler that would return or keep running; non-trivial = the limit was actually reached (error outcome) or the peak counters moved; distinct = (family, parameter, limit)"
     }
     fn assumptions(&self) -> Vec<String> {
         vec![
@@ -34,7 +34,7 @@ impl Prop for C07 {
             Phase::new("stack-limit", tier.pick(400, 12000)).min_cases(tier.pick(100, 3000)).timeouts(120, tier.pick(300, 1200)),
             Phase::new("tail-constant", tier.pick(60, 600)).min_cases(tier.pick(20, 200)).timeouts(300, tier.pick(300, 1200)),
             Phase::new("deep", tier.pick(24, 200)).min_cases(tier.pick(8, 60)).timeouts(300, tier.pick(300, 1200)),
-            Phase::new("interrupt", tier.pick(64, 1500)).min_cases(tier.pick(20, 400)).timeouts(120, tier.pick(300, 1200)),
+            Phase::new("interrupt", tier.pick(96, 1500)).min_cases(tier.pick(30, 400)).timeouts(120, tier.pick(300, 1200)),
         ];
         if tier == Tier::Thorough {
             v.push(Phase::new("deep-release", 100).build(Build::Release).min_cases(30).timeouts(300, 1200));
@@ -145,6 +145,22 @@ impl Worker for W {
                     src
                 };
                 Some(json!({"family": fam, "n": depth, "src": src, "key": {"family": fam}}))
+            }
+            _ if k % 3 == 2 => {
+                // the interrupt arrives while the program runs below an error-catching construct:
+                // the handler must not turn the interrupt into a normal continuation
+                let after = 1 + rng.below(50_000) as u64;
+                let handler = match rng.below(4) {
+                    0 => "wrap 42",
+                    1 => "wrap (spin 2000000000 0)",
+                    2 => "io.catch (wrap (spin 2000000000 0)) (\\e2 -> wrap 43)",
+                    _ => "wrap (spin 1000 0)",
+                };
+                let src = format!(
+                    "let {{ wrap }} = import! std.applicative\nlet io @ {{ ? }} = import! std.io\nrec let spin n acc = if n #Int< 1 then acc else spin (n #Int- 1) (acc #Int+ 1)\nin\nlet action =\n    do _ = wrap ()\n    wrap (spin 2000000000 0)\nio.catch action (\\e -> {})\n",
+                    handler
+                );
+                Some(json!({"family": "interrupt-inside-catch", "src": src, "interrupt_after_calls": after, "io": true, "key": {"family": "interrupt-inside-catch"}}))
             }
             _ => {
                 let after = 1 + rng.below(50_000) as u64;
@@ -277,8 +293,21 @@ impl Worker for W {
             _ => {
                 let src = case["src"].as_str().unwrap().to_string();
                 let after = case["interrupt_after_calls"].as_u64().unwrap_or(1000);
-                let vm = fresh();
-                let _ = run_program(&vm, "c07_warm", &format!("{}()\n", PRE));
+                let io = case["io"] == true;
+                let vm = if io {
+                    let mut st = Settings::PLAIN;
+                    st.prelude = true;
+                    st.run_io = true;
+                    vm_with(st)
+                } else {
+                    fresh()
+                };
+                if io {
+                    // load everything the program imports before calls are counted
+                    let _ = run_program(&vm, "c07_warm", "let { wrap } = import! std.applicative\nlet io @ { ? } = import! std.io\nio.catch (wrap 1) (\\e -> wrap 2)\n");
+                } else {
+                    let _ = run_program(&vm, "c07_warm", &format!("{}()\n", PRE));
+                }
                 // call-step counter through the VM's own debug hook
                 let calls = Arc::new(AtomicU64::new(0));
                 let at_interrupt = Arc::new(AtomicU64::new(u64::MAX));
@@ -316,7 +345,9 @@ impl Worker for W {
                 let kind = outcome_kind(&out);
                 r.stat("interrupts_issued", 1).stat(&format!("outcome_{}", kind.replace('-', "_")), 1);
                 r.nontrivial = true;
-                if kind != "interrupted" {
+                // inside io.catch the interruption surfaces as the message of the failed handler
+                let interrupted = kind == "interrupted" || matches!(&out, Outcome::Error(_, m) if m.contains("Thread was interrupted") || m.contains("nterrupted"));
+                if !interrupted {
                     return CaseResult::violation(h, format!("a long-running program was interrupted after {} calls but ended with {} (total calls {})", at, out.short(), total), json!({"kind": "interrupt-ignored", "outcome": kind}));
                 }
                 let after_calls = total.saturating_sub(at);
